@@ -604,8 +604,8 @@ PROPS = {
     "C11": dict(
         level="proof",
         claim="Deductive proof (Verus) that the real Tap::process_clocks refines the standard loader waveform one edge at a time: inside a pulse only the countdown moves; when it has elapsed exactly one edge happens and the next pulse starts with its nominal length (pilot 8063/3223 x 2168, sync 667/735, two equal halves of 855/1710 per bit MSB first for every byte of the block, pause), the state-machine loop terminates, plus a pure lemma that with bus-wait steps of 1..16 T every pulse lasts between nominal+1 and nominal+31 T.",
-        note="Assumes: host asset contract; the caller (wait_internal) passes the elapsed T-states of each bus wait. Not mechanised: the 'consequently the ROM loader loads the same' sentence (whole-program).",
-        verus=["tape"],
+        note="Assumes: host asset contract. That the controller hands the elapsed T-states of every bus wait to the tape (wait_internal -> tape.process_clocks(clk), ghost call log) is proved in unit ctl. Not mechanised: the 'consequently the ROM loader loads the same' sentence (whole-program).",
+        verus=["tape", "ctl"],
         explanation="pulse state machine: per-edge contract `edge(old,new)` + countdown lemma",
         not_mechanised=["ROM loader in real time ends with the same memory as fast loading (whole-program corollary)"],
     ),
